@@ -472,13 +472,36 @@ theorem queue_bound_gen (k : Nat) (ops : List Op) : ∀ (s : State) (n : Nat),
             · simp only [hkk, if_false] at hp'
               have := h p' hp'; omega
 
-/-- `|requested| ≤ 250 +` the number of head-drop Rejects that could not be written, for
-    every peer after every history -/
+/-- everything a peer keeps that traffic can make grow (`Peer.items`: the sum of the lengths
+    of all its list-valued fields — the harness measures the same total on the real
+    `peer.Peer` by reflection over every slice, map and channel) is at most 250 + the number
+    of head-drop Rejects that could not be written, for every peer after every history -/
 theorem C16_queue_bounded (st : Store) (ops : List Op) (k : Nat) (p : Peer)
     (hp : (after st ops).peers[k]? = some p) :
-    p.requested.length ≤ reqQ + keeps k (State.init st) ops := by
+    p.items ≤ reqQ + keeps k (State.init st) ops := by
   have := queue_bound_gen k ops (State.init st) 0 (by intro p hp; simp [State.init] at hp) p hp
+  simp only [Peer.items]
   omega
+
+/-- and what a single handler invocation hands to the writer (whose channel is bounded) is
+    at most one message, or — for a choke — the Choke and one Reject per queued request:
+    nothing is remembered for later, in any state, for any environment -/
+theorem C16_step_output_bounded (s : State) (op : Op) :
+    (step s op).2.msgs.length ≤ reqQ + 1 ∨
+    ∃ k p, op.target = some k ∧ s.peers[k]? = some p ∧ (step s op).2.msgs.length ≤ p.items + 1 := by
+  cases ht : op.target with
+  | none => left; rw [(step_untargeted s op ht).2.2.2.1]; simp
+  | some k =>
+    cases hp : s.peers[k]? with
+    | none => left; rw [(step_nopeer_out s op k ht hp).1]; simp
+    | some p =>
+      cases hl : p.live with
+      | false => left; rw [(step_dead_out s op k p ht hp hl).1]; simp
+      | true =>
+        right
+        refine ⟨k, p, rfl, hp, ?_⟩
+        rw [(step_live s op k p ht hp hl).2.1]
+        exact handle_outlen s.store p s.num op
 
 /-- per step, in any state: the queue grows by at most one request per message, and from
     250 up it does not grow at all unless the peer is Fast and the head-drop Reject could not
